@@ -126,3 +126,9 @@ def run(ctx):
 
     from engine.run import borrow
     borrow(ctx, 'C18', ['PEAK-CALL', 'PEAK-ALIGN'], 'the PEAK position written to the file must not depend on how the writes were split')
+
+    ctx.rule('KERNEL-SIBS', 'the s / i / f / d variants of one conversion kernel (<code>2T_array, T2<code>_array) agree on everything that is not the sample type: carried locals '
+             '(accumulators, values copied into or out of the codec state) have the same type, and the stores into the codec-private state are the same (field, expression) pairs', floor=20)
+    from engine.kernelsibs import kernel_sibs
+    ctx.require(kernel_sibs(ctx, prog) >= 20, 'too few kernel families found')
+
